@@ -8,6 +8,7 @@ CONSTANTS
   CompleteBeforeJoin = FALSE
   TermIsForced = FALSE
   SecondStopHangs = FALSE
+  AwaitsLastWorkerOnly = FALSE
 SPECIFICATION Spec
 VIEW View
 INVARIANTS C06_GracefulWaits C06_NoDispatchAfterCompletion C06_SignalKinds
